@@ -242,6 +242,9 @@ func installUniverse() {
 	mk("mathmod", []types.Type{intT, intT}, intT, false)
 	mk("pure", []types.Type{anyT}, anyT, false)
 	mk("b2i", []types.Type{boolT}, intT, false)
+	mk("ghostu64", []types.Type{types.Typ[types.String], types.NewSlice(anyT)}, types.Typ[types.Uint64], true)
+	mk("ghosts", []types.Type{types.Typ[types.String], types.NewSlice(anyT)}, types.Typ[types.String], true)
+	mk("sbyteAt", []types.Type{anyT, intT}, types.Typ[types.Byte], false)
 	mk("has", []types.Type{anyT, anyT}, boolT, false)
 	mk("gmap", []types.Type{types.Typ[types.String], types.NewSlice(anyT)}, types.NewMap(types.Typ[types.String], types.Typ[types.String]), true)
 }
@@ -1044,6 +1047,12 @@ func (p *Program) fillContract(fc *FuncContract, clauses []*rawClause, body *ast
 			}
 			sub := rc.sub
 			pos := loopBody(loops[rc.ord-1]).Lbrace + 1
+			// iter_ : the 0-based iteration index of a range loop, usable in loop clauses
+			if rs, ok := loops[rc.ord-1].(*ast.RangeStmt); ok {
+				if sc := pk.TypesInfo.Scopes[rs]; sc != nil && sc.Lookup("iter_") == nil {
+					sc.Insert(types.NewVar(rs.Pos(), pk.Types, "iter_", types.Typ[types.Int]))
+				}
+			}
 			switch sub.kind {
 			case "invariant":
 				cl, err := p.checkClause(fc, sub, rc.where, pos)
